@@ -157,6 +157,7 @@ prop("C12",
          H("c12_to_vec_layout", T, bounds="all 2^32 counters and None, all 16 combinations of UP/UV/BE/BS, all rp-id hashes (SHA-256 stubbed to an arbitrary value)"),
          H("c12_to_vec_layout_twin", T, twin=True, bounds="same"),
          H("c12_setters_set_section_flags", T, bounds="all 16 extra flag combinations; empty credential id and default COSE key"),
+         H("c12_section_bits_follow_sections", T, bounds="all 64 combinations of the six defined flags given to set_flags, every counter, no section attached"),
      ] + [H("c12_from_slice_flags_%s" % f, T, bounds="37-byte input, flag byte 0x%s, all hashes and counters" % f) for f in sorted(set(_FLAGS16))] + [
          H("c12_from_slice_twin", T, twin=True, bounds="flag byte 0x1d"),
          H("c12_from_slice_at_truncated_0", T, bounds="flag byte 0x41 (AT), 0 bytes after the header"),
@@ -477,9 +478,12 @@ prop("C19",
                 "<Arc<tokio::sync::RwLock<S>> as CredentialStore>::{find_credentials, update_credential} (MIR)"],
      stubs=["every callee is an environment event; each store call through a lock wrapper is one atomic step (checked on the wrappers' MIR: the guard is taken and released inside the call)"],
      explanation="assert/assert on one credential: from the MIR, the counter is read by the lookup and written by a separate update call with a suspension point between them, and the "
-                 "lock wrappers lock per call; z3 decides over every order of the two ceremonies' read/write steps (each ceremony's own order kept, all 2^32 start values) whether both can "
-                 "report the same counter; a satisfying schedule is replayed natively with two authenticators sharing Arc<Mutex<store>> / Arc<RwLock<store>> and explicit polling",
-     outside=["deadlock freedom", "register/register and assert/register interleavings (lost credentials)", "three concurrent ceremonies", "real multi-threaded schedulers (the replay uses explicit single-threaded polling)"],
+                 "lock wrappers lock per call (one acquisition, forwarded once, result unchanged); the counter step is extracted from the MIR; z3 decides over every order of the ceremonies' "
+                 "read/write steps (each ceremony's own order kept, all 2^32 start values): (a) two ceremonies one after the other never report the same counter, (b) two overlapping ones, "
+                 "(c) three ceremonies: the stored value is the largest reported; satisfying schedules are replayed natively with authenticators sharing Arc<Mutex<store>> / "
+                 "Arc<RwLock<store>> and explicit polling",
+     outside=["deadlock freedom beyond 'one lock acquisition per wrapper call'", "register/register and assert/register interleavings (lost credentials)", "more than three concurrent ceremonies",
+              "real multi-threaded schedulers (the replay uses explicit single-threaded polling)"],
      level_text="PARTIAL claim: the pairwise-distinct-counters clause for two concurrent assertions and the forwarding / single-acquisition shape of the lock wrappers; deadlock freedom in general and interleaved registrations are not decided.",
      technique="symbolic path execution of rustc MIR (read / suspend / write structure, lock scope) + z3 query over all interleavings of two ceremonies' atomic steps, native replay",
      trusted=E2_TRUST,
@@ -549,3 +553,16 @@ PROPS["C03"]["outside"] = ["that the ECDSA signature verifies as mathematics (p2
                            "extension processing", "U2F authenticate (C17)"]
 PROPS["C03"]["level_text"] = ("PARTIAL claim: the binding of signature, key, credential id, authenticator data and client data hash in get_assertion and what Client::authenticate sends and "
                               "returns, as data flow; cryptography and encoders are environment calls and are not decided.")
+
+# round 4: write contract of the shipped stores (C07: save, C08: update); section bits of the AuthenticatorData setters (C12)
+PROPS["C07"]["e2"] = PROPS["C07"]["e2"] + ["store_writes"]
+PROPS["C08"]["e2"] = PROPS["C08"]["e2"] + ["store_writes"]
+PROPS["C07"]["functions"] += ["<MemoryStore / Option<Passkey> as CredentialStore>::save_credential::{closure#0} (MIR)"]
+PROPS["C08"]["functions"] += ["<MemoryStore / Option<Passkey> as CredentialStore>::update_credential::{closure#0} (MIR)"]
+PROPS["C07"]["explanation"] += " Shipped stores: save_credential answers Ok only on paths that unconditionally put the given credential into the store."
+PROPS["C08"]["explanation"] += (" Shipped stores: update_credential answers Ok only on paths that unconditionally put the given credential into the store (HashMap::insert keyed by "
+                                "its own id / Option::replace), so the value reported is the value held.")
+PROPS["C12"]["e2"] = PROPS["C12"]["e2"] + ["setters"]
+PROPS["C12"]["functions"] += ["E2: AuthenticatorData::{set_attested_credential_data, set_make_credential_extensions, set_assertion_extensions} (MIR)"]
+PROPS["C12"]["explanation"] += (" E2 (setters): on every returning path of the three section setters the section field is written to Some(..) exactly when the matching bit (AT / ED) "
+                                "is or-ed into the flags, and never the other bit; replayed natively with real sections (encode, inspect bits, decode, re-encode).")
